@@ -207,9 +207,8 @@ def parse_output(out: str, harness_names):
             low = text.lower()
             if "unwinding assertion" in low and all("unwinding assertion" in f["check"].lower() for f in r["failed_checks"]):
                 r["status"] = "undecided"   # bound too small, not a refutation
-            if "unsupported" in low and not any(
-                    "unsupported" not in f["check"].lower() for f in r["failed_checks"]):
-                r["status"] = "undecided"
+            if "not currently supported by kani" in low or "a rust construct that is not currently supported" in low:
+                r["status"] = "undecided"   # tool limit, not a refutation
             if "cbmc timed out" in low or "out of memory" in low or "timed out" in low and not r["failed_checks"]:
                 r["status"] = "undecided"
         res[name] = r
